@@ -40,7 +40,8 @@ type World struct {
 	Tokens   map[string]*SimToken
 	// TokenPlan is consulted by sim tokens for scripted outcomes.
 	TokenPlan func(tok *SimToken, op string, key string, n int) TokOutcome
-	Keys      map[string]*KeyMaterial // by key config name (label)
+	Keys      map[string]*KeyMaterial // current generation by key label (default: key config name)
+	KeyHistory map[string][]*KeyMaterial
 	free      bool
 	Deadlock  string
 }
@@ -85,7 +86,7 @@ func Run(r *core.Run, opt Options, body func(w *World)) (w *World) {
 	root := core.NewScratch()
 	defer core.RemoveScratch(root)
 	w = &World{R: r, T: r.T, Root: root, ticks: map[string]int{}, tickAt: map[string]time.Time{}, Spinning: map[string]time.Time{},
-		Tokens: map[string]*SimToken{}, Keys: map[string]*KeyMaterial{}}
+		Tokens: map[string]*SimToken{}, Keys: map[string]*KeyMaterial{}, KeyHistory: map[string][]*KeyMaterial{}}
 	oldLogger := log.Logger
 	log.Logger = zerolog.New(&w.LogBuf)
 	defer func() { log.Logger = oldLogger }()
